@@ -1,0 +1,161 @@
+//go:build verif
+
+package jd
+
+// Spec functions for the v1 library (build tag verif only). Pure: no loops, no mutation.
+
+func forallInt(lo, hi int, f func(i int) bool) bool {
+	for i := lo; i < hi; i++ {
+		if !f(i) {
+			return false
+		}
+	}
+	return true
+}
+
+func forallKey(a, b jsonObject, f func(k string) bool) bool {
+	for k := range a {
+		if !f(k) {
+			return false
+		}
+	}
+	for k := range b {
+		if !f(k) {
+			return false
+		}
+	}
+	return true
+}
+
+func mapHas(o jsonObject, k string) bool {
+	_, ok := o[k]
+	return ok
+}
+
+// validNode: no nil interface anywhere inside a document.
+func validNode(n JsonNode) bool {
+	switch v := n.(type) {
+	case nil:
+		return false
+	case jsonArray:
+		return validNodes(v)
+	case jsonList:
+		return validNodes(v)
+	case jsonSet:
+		return validNodes(v)
+	case jsonMultiset:
+		return validNodes(v)
+	case jsonObject:
+		return validObject(v)
+	default:
+		return true
+	}
+}
+
+func validNodes(l []JsonNode) bool {
+	return forallInt(0, len(l), func(i int) bool { return validNode(l[i]) })
+}
+
+func validObject(o jsonObject) bool {
+	return forallKey(o, o, func(k string) bool { return validNode(o[k]) })
+}
+
+// specHasMeta: metadata value m occurs in the list.
+func specHasMeta(metadata []Metadata, m Metadata) bool {
+	if len(metadata) == 0 {
+		return false
+	}
+	if metadata[0] == m {
+		return true
+	}
+	return specHasMeta(metadata[1:], m)
+}
+
+// specArrayKind: SET wins over MULTISET; otherwise arrays are ordered lists. 1 list, 2 set, 3 multiset.
+func specArrayKind(metadata []Metadata) int {
+	if specHasMeta(metadata, SET) {
+		return 2
+	}
+	if specHasMeta(metadata, MULTISET) {
+		return 3
+	}
+	return 1
+}
+
+func specDispatch(n JsonNode, metadata []Metadata) JsonNode {
+	a, ok := n.(jsonArray)
+	if !ok {
+		return n
+	}
+	switch specArrayKind(metadata) {
+	case 2:
+		return jsonSet(a)
+	case 3:
+		return jsonMultiset(a)
+	}
+	return jsonList(a)
+}
+
+// specPrecision: the eps of the first precision metadata, else 0.
+func specPrecision(metadata []Metadata) float64 {
+	if len(metadata) == 0 {
+		return 0
+	}
+	if p, ok := metadata[0].(precisionMetadata); ok {
+		return p.precision
+	}
+	return specPrecision(metadata[1:])
+}
+
+func specAbs(x float64) float64 {
+	if x < 0 {
+		return -x
+	}
+	return x
+}
+
+// specEq: deep structural equality, numbers within eps, arrays read as ordered lists
+// (set and multiset readings are decided by hash codes and are outside this spec: false).
+func specEq(a, b JsonNode, metadata []Metadata) bool {
+	switch x := a.(type) {
+	case voidNode:
+		_, ok := b.(voidNode)
+		return ok
+	case jsonNull:
+		_, ok := b.(jsonNull)
+		return ok
+	case jsonBool:
+		y, ok := b.(jsonBool)
+		return ok && x == y
+	case jsonString:
+		y, ok := b.(jsonString)
+		return ok && x == y
+	case jsonNumber:
+		y, ok := b.(jsonNumber)
+		return ok && specAbs(float64(x)-float64(y)) <= specPrecision(metadata)
+	case jsonObject:
+		y, ok := b.(jsonObject)
+		return ok && forallKey(x, y, func(k string) bool {
+			return mapHas(x, k) && mapHas(y, k) && specEq(x[k], y[k], metadata)
+		})
+	case jsonList:
+		y, ok := specDispatch(b, metadata).(jsonList)
+		return ok && specEqList(x, y, metadata)
+	case jsonArray:
+		return specEq(specDispatch(x, metadata), b, metadata)
+	}
+	return false
+}
+
+func specEqList(x, y []JsonNode, metadata []Metadata) bool {
+	return len(x) == len(y) && forallInt(0, len(x), func(i int) bool { return specEq(x[i], y[i], metadata) })
+}
+
+// specListMode: no SET / MULTISET metadata (the proved part of Equals is list mode).
+func specListMode(metadata []Metadata) bool {
+	return specArrayKind(metadata) == 1
+}
+
+func same(a, b JsonNode) bool {
+	return specEq(a, b, nil)
+}
